@@ -495,14 +495,33 @@ def run(tier="quick", root="/repo", evidence_dir=None, quiet=False):
     ])
     repo = get_repo(root)
     rep.attempt(rule_r1, rep, repo)
-    gen_keys = rep.attempt(rule_r2, rep, repo)
-    if gen_keys is not None:
-        rep.attempt(rule_r3, rep, repo, gen_keys)
+    from gridlint import moments_quad
+    # the order generator evaluated for the orders 0..4 (bounded back-up of the symbolic rules R2 / R6)
+    before = len(rep.failed_floors)
+    rep.attempt(moments_quad.rule_orders_bounded, rep, repo)
+    bounded_ok = len(rep.failed_floors) == before and not any(v["role"].endswith(":bounded") for v in rep.violations)
+
+    def structural(rule, *args):
+        """R2 / R6 argue for every order from the shape of the generator; when they do not recognise its idiom and the
+        bounded evaluation has decided the orders 0..4, that is a note, not an undecided run."""
+        try:
+            return rule(*args)
+        except AnalysisError as e:
+            if bounded_ok:
+                rep.note(f"structural rule {rule.__name__} did not recognise the idiom ({str(e)[:140]}); the generator was "
+                         f"evaluated for the orders 0..4 instead (bounded)")
+                return None
+            rep.failed_floors.append(str(e))
+            return None
+    gen_keys = structural(rule_r2, rep, repo)
+    # R3 (every moment type the generator accepts is computed by Grid.moments) is decided by the evaluation of R7: the
+    # earlier syntactic version (collect the `type_mom == "..."` tests of Grid.moments, one `integral =` per key) raised a
+    # false alarm on a refactoring that moved the branches into a kernel factory and was removed
     rep.attempt(rule_r4, rep, repo)
     rep.attempt(rule_r5, rep, repo, None)
-    rep.attempt(rule_r6, rep, repo)
+    structural(rule_r6, rep, repo)
     from gridlint import moments_quad
-    rep.attempt(moments_quad.rule_quadratures, rep, repo)
+    rep.attempt(moments_quad.rule_quadratures, rep, repo, gen_keys)
     rep.attempt(moments_quad.rule_dipole, rep, repo)
     import numpy
     import scipy
